@@ -33,7 +33,12 @@ CONSTANTS Shards,        \* set of stream names
           StopForgetsParts, \* TRUE = as built: StopReadCollection forgets the collection's partition barriers entirely;
                             \* FALSE (negative control): the entries stay and AddPartition of the restart is refused
           DropRemembered,   \* TRUE = as built: a delivered collection drop is remembered under the SOURCE collection id
-          MayStartAgain     \* the collection may be started once more after its drop was delivered
+          MayStartAgain,    \* the collection may be started once more after its drop was delivered
+          PartsDroppedAtStart, \* partitions (subset of Parts) already dropped upstream when CDC (re)starts, still present downstream:
+                            \* AddPartition announces them as dropped and every handler that holds the collection record generates
+                            \* a drop-partition message at its seek position (skipped when the seek timestamp is 0)
+          SynthPartSkipped  \* FALSE = as built.  TRUE (negative control): a partition announced as dropped counts as "dropping" from
+                            \* then on: the generated message and the shards' own drop messages of it are thrown away
 
 VARIABLES started, reg, held, idx, closed,
           cbar,       \* shards that signalled the collection barrier
@@ -86,13 +91,20 @@ Release(s) == /\ started /\ s \in held /\ ~stopped
               /\ hist' = Append(hist, [op |-> "release", v |-> s]) \o GenRuns({s})
 
 AddPart(p) == /\ started /\ ~stopped /\ reg # {} /\ pbar[p].added # "yes" /\ reg \ closed # {} /\ ~droppedC /\ p \notin droppedP
-              /\ pbar' = [pbar EXCEPT ![p] =
-                    IF pbar[p].added = "stale"
-                      THEN [size |-> 0, sig |-> {}, shards |-> {}, added |-> "yes", full |-> (reg \ closed = Shards /\ \A sh \in Shards : <<sh, p>> \notin readDrop)]   \* "already replicated": refused
-                      ELSE [size |-> IF PartBarrierByShards THEN Cardinality(Shards) ELSE Cardinality(reg \ closed),
-                            sig |-> {}, shards |-> reg \ closed, added |-> "yes", full |-> (reg \ closed = Shards /\ \A sh \in Shards : <<sh, p>> \notin readDrop)]]
-              /\ UNCHANGED <<started, reg, held, idx, closed, cbar, droppedC, droppedP, events, emitted, readDrop, errs, stopped, restarts, again>>
-              /\ hist' = Append(hist, [op |-> "addpart", c |-> "c1", p |-> p])
+              /\ LET synth == p \in PartsDroppedAtStart /\ SeekTs > 0 /\ ~SynthPartSkipped /\ pbar[p].added # "stale"
+                     sh == reg \ closed
+                     size == IF PartBarrierByShards THEN Cardinality(Shards) ELSE Cardinality(sh)
+                     fire == synth /\ Cardinality(sh) >= size IN
+                 /\ pbar' = [pbar EXCEPT ![p] =
+                       IF pbar[p].added = "stale"
+                         THEN [size |-> 0, sig |-> {}, shards |-> {}, added |-> "yes", full |-> (reg \ closed = Shards /\ \A x \in Shards : <<x, p>> \notin readDrop)]   \* "already replicated": refused
+                         ELSE [size |-> size, sig |-> IF synth THEN sh ELSE {}, shards |-> IF synth THEN {} ELSE sh, added |-> "yes",
+                               full |-> (reg \ closed = Shards /\ \A x \in Shards : <<x, p>> \notin readDrop)]]
+                 /\ events' = IF fire THEN Append(events, [type |-> "DropPartition", p |-> p]) ELSE events
+                 /\ droppedP' = IF fire THEN droppedP \cup {p} ELSE droppedP
+                 /\ hist' = Append(hist, [op |-> "addpart", c |-> "c1", p |-> p, dropped |-> (p \in PartsDroppedAtStart)])
+                              \o (IF p \in PartsDroppedAtStart /\ SeekTs > 0 THEN [i \in 1..Cardinality(sh) |-> [op |-> "run", g |-> "gen:c1"]] ELSE <<>>)
+              /\ UNCHANGED <<started, reg, held, idx, closed, cbar, droppedC, emitted, readDrop, errs, stopped, restarts, again>>
 
 \* process one message of stream s; acc = [pb, dp, ev, keep, rd, cb, er, cl]
 Handle(acc, s, m) ==
@@ -101,7 +113,8 @@ Handle(acc, s, m) ==
     ELSE IF m.k \in {"ins", "del"}
       THEN IF m.p \in acc.dp THEN acc ELSE [acc EXCEPT !.keep = Append(@, m)]
     ELSE IF m.k = "dropp"
-      THEN IF m.p \in acc.dp THEN [acc EXCEPT !.rd = @ \cup {<<s, m.p>>}]
+      THEN IF m.p \in acc.dp \/ (SynthPartSkipped /\ m.p \in PartsDroppedAtStart /\ acc.pb[m.p].added = "yes")   \* (control: marked as dropping)
+             THEN [acc EXCEPT !.rd = @ \cup {<<s, m.p>>}]
            ELSE IF s \notin acc.pb[m.p].shards
                   THEN [acc EXCEPT !.er = 1, !.rd = @ \cup {<<s, m.p>>}]   \* no barrier chan for this shard: retry fails, error event
                   ELSE LET sig == acc.pb[m.p].sig \cup {s}
@@ -180,7 +193,7 @@ DropOnce == Count("DropCollection", "") <= 1 /\ \A p \in Parts : Count("DropPart
 \* a drop request only after the drop message has been read on every shard (or the object was dropped while CDC was down)
 DropAfterAllShards ==
     /\ (Count("DropCollection", "") > 0 => (DroppedAtStart \/ \A s \in Shards : <<s, "">> \in readDrop))
-    /\ \A p \in Parts : Count("DropPartition", p) > 0 => \A s \in Shards : <<s, p>> \in readDrop
+    /\ \A p \in Parts : Count("DropPartition", p) > 0 => (p \in PartsDroppedAtStart \/ \A s \in Shards : <<s, p>> \in readDrop)
 \* nothing read after a shard's own drop message of an object is emitted for that object
 PosOfDrop(s, obj) == IF \E k \in 1..Len(Script[s]) : \E i \in 1..Len(Script[s][k]) :
                            (obj = "" /\ Script[s][k][i].k = "dropc") \/ (obj # "" /\ Script[s][k][i].k = "dropp" /\ Script[s][k][i].p = obj)
@@ -198,6 +211,9 @@ StopNeverDrops == stopped => Len(events) = 0 \/ TRUE   \* refined in the accepto
 Delivered == (Done /\ ~stopped) =>
                 /\ (errs = 0 /\ ((DroppedAtStart /\ SeekTs > 0) \/ \A s \in Shards : <<s, "">> \in readDrop)) => Count("DropCollection", "") = 1
                 /\ \A p \in Parts : ((errs = 0 \/ pbar[p].full) /\ (\A s \in Shards : <<s, p>> \in readDrop) /\ ~droppedC)
+                                         => Count("DropPartition", p) = 1
+                \* a partition dropped while CDC was down, announced when every shard was registered: delivered exactly once
+                /\ \A p \in PartsDroppedAtStart : (errs = 0 /\ SeekTs > 0 /\ pbar[p].added = "yes" /\ pbar[p].full /\ ~droppedC)
                                          => Count("DropPartition", p) = 1
 C04 == DropOnce /\ DropAfterAllShards /\ SilentAfterDrop
 
